@@ -8,7 +8,7 @@
 """
 import os, re, sys
 from vlib import core
-from checks import dsgen
+from checks import dsgen, c03scale
 
 TRUST = ("Lean 4.33 kernel; axioms at most propext/Classical.choice/Quot.sound (audited per run); "
          "optimalBatchSizes/batchPartitioning are machine-translated from the C++ on every run (clang-14 JSON AST -> Lean, "
@@ -78,12 +78,16 @@ FINISH = dict(level="proof",
               rule="histories of dataset operations generated against the Lean model from one SplitMix64 stream; a case is non-trivial if it "
                    "contains at least 4 structure-changing ops; distinct = distinct op text")
 
-LAKE_TARGETS = ["SharkVerif.Props.C03", "drv_c03"]
+LAKE_TARGETS = ["SharkVerif.Props.C03", "SharkVerif.Props.C03Index", "drv_c03"]
+PROVE = ["SharkVerif.Props.C03", "SharkVerif.Gen.IndexTypes", "SharkVerif.Props.C03Index"]
 TYPES = [("uint", []), ("real", ["3"]), ("sparse", ["7"]), ("blob", [])]
 
 
 def translate(ctx):
-    return ctx.translate("batch_arith.py")
+    a = ctx.translate("batch_arith.py")
+    # T0b: every integer-typed declaration of the dataset headers with its width -> Gen/IndexTypes.lean (obligation index_fields_are_size_t)
+    b = ctx.translate("index_types.py", "--inc", ctx.shark_h())
+    return a and b
 
 
 TYPES_W = [("wuint", []), ("wreal", ["3"])]     # WeightedLabeledData<I, unsigned> (harness/c03w.cpp)
@@ -100,10 +104,10 @@ def build_w(ctx):
 def build(ctx):
     """both harnesses (used by ./setup); the two TUs compile side by side"""
     from concurrent.futures import ThreadPoolExecutor
-    with ThreadPoolExecutor(max_workers=2) as ex:
-        fe, fw = ex.submit(build_main, ctx), ex.submit(build_w, ctx)
-        exe, exew = fe.result(), fw.result()
-    return exe if exe and exew else None
+    with ThreadPoolExecutor(max_workers=3) as ex:
+        fe, fw, fs = ex.submit(build_main, ctx), ex.submit(build_w, ctx), ex.submit(c03scale.build, ctx)
+        exe, exew, exes = fe.result(), fw.result(), fs.result()
+    return exe if exe and exew and exes else None
 
 
 # ----------------------------------------------------------------------------- generator
@@ -477,14 +481,24 @@ def run(ctx):
                         "independence is *not* assumed: makeIndependent() and the 'Container is not Independent' exception are modelled and exercised",
                         "size_t arithmetic does not overflow 2^64 (all quantities are bounded by the element count)"]
     translate(ctx)
-    ctx.prove(["SharkVerif.Props.C03"])
+    ctx.prove(PROVE)
     if not ctx.quick:
-        ctx.leanchecker(["SharkVerif.Props.C03"])
+        ctx.leanchecker(["SharkVerif.Props.C03", "SharkVerif.Props.C03Index"])
     exe = build(ctx)
     exew = build_w(ctx) if exe else None               # cached after build()
+    exes = c03scale.build(ctx) if exe else None
     drv = ctx.driver("drv_c03")
-    if not exe or not exew or not drv:
-        return
+    # the scale family needs neither the driver nor the proofs: it runs in the background from here on
+    scale = c03scale.start(ctx, exes, core.SplitMix64(ctx.seed).fork("c03scale")) if exes else None
+    try:
+        if exe and exew and drv:
+            run_stream(ctx, exe, exew, drv)
+    finally:
+        if scale:
+            c03scale.finish(ctx, scale)
+
+
+def run_stream(ctx, exe, exew, drv):
     instantiation_probes(ctx)
     feed = os.path.join(core.VERIF, "tools", "obsfeed.py")
     avoid, passing = run_open(ctx, {"main": exe, "w": exew}, drv, feed, [])
@@ -579,6 +593,8 @@ def classify_w(ops, res):
 
 
 def replay(ctx, rep):
+    if rep.get("scale"):
+        return c03scale.replay(ctx, rep)
     drv = ctx.driver("drv_c03")
     cmd = list(rep.get("harness_cmd", ["", "uint"]))
     ty = cmd[1] if len(cmd) > 1 else "uint"
